@@ -67,6 +67,23 @@ def gen(rng):
             G.add_trashed(steps, ht, nm, TG.pct(home + '/old/' + nm), '2020-01-01T00:00:00', 'file', tag='old')
             for v in ([] if cross else L['vols']):
                 G.add_trashed(steps, v + '/.Trash-%d' % uid, nm, TG.pct('docs/' + nm), '2020-01-01T00:00:00', 'file', tag='oldv')
+    neighbours = rng.random() < 0.45
+    if neighbours:
+        # entries whose names look like temporary / backup / partial spellings of the names about to be trashed are already in
+        # every trash directory the arguments can go to: no crash state (and no completed run) may damage them
+        ht = G.home_trash_of(env)
+        have = set(posixpath.basename(a) for a in args) if collision else set()
+        for a in args:
+            for j, nn in enumerate(G.neighbour_names(rng, posixpath.basename(a))):
+                if len(nn.encode('utf-8')) > 200 or nn in have:
+                    continue
+                have.add(nn)
+                G.add_trashed(steps, ht, nn, TG.pct(home + '/old/' + nn), '2019-03-0%dT00:00:00' % (j + 1), rng.choice(['file', 'file', 'dir', 'link']), tag='nb%d' % len(have))
+                for v in ([] if cross else L['vols']):
+                    for T in (v + '/.Trash-%d' % uid, v + '/.Trash/%d' % uid):
+                        if T.endswith('/.Trash/%d' % uid) and L['trash'][v]['top'] != 'sticky':
+                            continue
+                        G.add_trashed(steps, T, nn, TG.pct('docs/' + nn), '2019-03-0%dT00:00:00' % (j + 1), 'file', tag='nbv%d' % j)
     opts = []
     if cross:
         # the volume trash dirs must be unusable so that the fallback is taken
@@ -80,7 +97,7 @@ def gen(rng):
         'world': {'mounts': L['mounts'], 'steps': steps},
         'procs': [{'argv': ['trash-put'] + opts + ['--'] + args, 'env': env, 'cwd': rng.choice(['/', home]), 'uid': uid}],
         'dirsalt': rng.randrange(1 << 30),
-        'note': {'cross': cross, 'collision': collision, 'kinds': kinds},
+        'note': {'cross': cross, 'collision': collision, 'kinds': kinds, 'neighbours': neighbours},
     }
 
 
@@ -152,6 +169,16 @@ def check(sim, case, st):
                 st.probes['entry-complete-in-both'] += 1
             if snap != before and snap != final:
                 st.distinct.add((nm.ekind, bool(note.get('cross')), bool(note.get('collision')), killop))
+        # 1b. what was in the trash before the command is still there, whole: payload and .trashinfo of every earlier entry
+        for T in ML.trash_dirs_in(before):
+            for N in sorted(ML.payloads(before, T) & ML.infos(before, T)):
+                ip = T + '/info/' + N + '.trashinfo'
+                if not Wd.same_entry(before.get(ip), snap.get(ip)):
+                    bad('earlier-entry-info-damaged', 'the .trashinfo of the earlier entry %s in %s was %r, is now %r' % (N, T, before.get(ip), snap.get(ip)))
+                    break
+                if not Wd.same_tree(Wd.subtree(before, T + '/files/' + N), Wd.subtree(snap, T + '/files/' + N)):
+                    bad('earlier-entry-payload-damaged', 'the payload of the earlier entry %s in %s changed' % (N, T))
+                    break
         # 2. every new payload has its info, present, complete, parseable
         for (T, N) in newp:
             ip = T + '/info/' + N + '.trashinfo'
